@@ -86,6 +86,10 @@ type c12Scn struct {
 	Ops           []c12Op
 	DirectAppears bool // an inbound direct connection is admitted at some point
 	DirectCloses  bool // the (initial or appearing) direct connection is closed at some point
+	// DirectDies: the INITIAL direct connection dies underneath the swarm (its transport connection is closed, as when the
+	// remote goes away); in the window before the swarm has noticed, the connection is "closing": still in the
+	// connection table, already closed. The thread that closed it asks for the peer's connectedness at once.
+	DirectDies bool
 	LimitedCloses bool
 	Limited2      bool  // a second limited connection is admitted at some point
 	MustSucceed   []int // baseline (non-vacuity): these ops return a connection in every complete execution
@@ -216,6 +220,19 @@ func c12Body(sc c12Scn) func(x *vs.Exec) {
 				vs.Yield()
 				if direct != nil {
 					direct.Close()
+				}
+			})
+		}
+		if sc.DirectDies && direct != nil && !sc.DirectAppears {
+			dying := direct
+			s.GoPrio("direct-dies", 2, func() {
+				vs.Yield()
+				dying.Close() // the transport connection: the swarm learns of it through its accept loop
+				got := env.Swarm.Connectedness(P.ID)
+				// no other unlimited connection exists or can appear in this scenario: every unlimited connection to the
+				// peer is closed, so the peer is reachable over limited connections at most
+				if got == network.Connected && !s.Free {
+					x.Fail("connected-reported-with-only-a-closed-direct-connection", "the only direct connection to the peer has been closed (the swarm has not removed it yet); Connectedness() = %v although the peer is reachable over limited connections at most", got)
 				}
 			})
 		}
@@ -373,6 +390,7 @@ func c12Scenarios(thorough bool) []c12Scn {
 	scs := []c12Scn{
 		{Name: "waiter with limited conn, direct appears", HaveLimited: true, Ops: []c12Op{plain}, DirectAppears: true},
 		{Name: "waiter with limited conn, direct appears and closes", HaveLimited: true, Ops: []c12Op{plain}, DirectAppears: true, DirectCloses: true},
+		{Name: "limited + direct conn, the direct one dies underneath the swarm; allow-limited stream", HaveLimited: true, HaveDirect: true, DirectDies: true, Ops: []c12Op{{Kind: "stream", AllowLimited: true}}},
 		{Name: "waiter with limited conn, a second limited conn appears, then a direct one", HaveLimited: true, Ops: []c12Op{plain}, Limited2: true, DirectAppears: true},
 		{Name: "stream opened on the limited connection object with and without permission", HaveLimited: true, Ops: []c12Op{{Kind: "conn-stream"}, {Kind: "conn-stream", AllowLimited: true}}},
 		{Name: "waiter with limited conn, cancelled", HaveLimited: true, Ops: []c12Op{{Kind: "stream", Cancel: true}}},
